@@ -31,7 +31,9 @@ func (q *WriteDedupQueue) GetChunk(id ChunkID) (*Chunk, error) {
 	q.storeChunkQueue.mu.Unlock()
 
 	if isInFlight {
+		verifYieldID("wdq.get.join", id)
 		data, err := req.wait()
+		verifYieldID("wdq.get.woke", id)
 		switch b := data.(type) {
 		case nil:
 			return nil, err
@@ -43,6 +45,7 @@ func (q *WriteDedupQueue) GetChunk(id ChunkID) (*Chunk, error) {
 	}
 
 	// If the chunk is not currently being stored get the chunk as usual
+	verifYieldID("wdq.get.pass", id)
 	return q.DedupQueue.GetChunk(id)
 }
 
@@ -55,20 +58,26 @@ func (q *WriteDedupQueue) StoreChunk(chunk *Chunk) error {
 	req, isInFlight := q.storeChunkQueue.loadOrStore(id)
 
 	if isInFlight { // The request is already in-flight, wait for it to come back
+		verifYieldID("wdq.store.join", id)
 		_, err := req.wait()
+		verifYieldID("wdq.store.woke", id)
 		return err
 	}
 
 	// This request is the first one for this chunk, execute as normal
+	verifYieldID("wdq.store.lead", id)
 	err := q.S.StoreChunk(chunk)
+	verifYieldID("wdq.store.upret", id)
 
 	// Signal to any others that wait for us that we're done, they'll use our data
 	// and don't need to hit the store themselves
 	req.markDone(chunk, err)
+	verifYieldID("wdq.store.marked", id)
 
 	// We're done, drop the request from the queue to avoid keeping all the chunk data
 	// in memory after the request is done
 	q.storeChunkQueue.delete(id)
+	verifYieldID("wdq.store.deleted", id)
 
 	return err
 }
